@@ -6,7 +6,7 @@ import json, os, re
 # text that goes into the evidence files
 
 RULES = {
-    "C01": "Cases are call histories over the op IR (all mutators in checked and unchecked form, failing calls left in, removed ids as arguments): every history of <= d calls over <= k slots from the empty arena and from every forest shape (exhaustive sub-runs), plus proptest-generated histories, plus one-step probes of every (entry point, a, b) on clones. After every step the link table of every slot is read through Arena::get + Node accessors and the model-free well-formedness predicate is evaluated. Non-trivial: a structural mutation executed on >= 3 live nodes, or a rejected call; distinct by (entry point, argument relation, shape of the trees containing the arguments).",
+    "C01": "Cases are call histories over the op IR (all mutators in checked and unchecked form, failing calls left in, removed ids as arguments): every history of <= d calls over <= k slots from the empty arena and from every forest shape (exhaustive sub-runs), plus proptest-generated histories (with Grow macro-operations on a size ladder 2..1100 and a big-arena sub-run beyond 65 536 slots), plus one-step probes of every (entry point, a, b) on clones. After every step the link table of every slot is read through Arena::get + Node accessors and the model-free well-formedness predicate is evaluated. Non-trivial: a structural mutation executed on >= 3 live nodes, or a rejected call; distinct by (entry point, argument relation, shape of the trees containing the arguments).",
     "C02": "Same histories; every insert is executed for every ordered pair of candidate ids at probe states. Oracle: own bounded walks along parent/next/prev links right after each call, every library iterator from every live start node consumed through take(cap+1). Non-trivial: an insert whose two arguments are related (anything but 'other tree'), accepted or rejected; distinct by (entry point, relation, outcome, marked shape).",
     "C03": "Successful append/prepend/insert_before/insert_after (both forms), append_value and detach, in generated and exhaustively enumerated histories; oracle = children-list model -> expected five links of EVERY slot (effect + frame), Arena== snapshot for re-insertion in place, clone equivalence new_node+append for append_value. Non-trivial: moved node has >= 1 child, or the move is inside one sibling list, or a top-level chain is involved; distinct by (entry point, relation, marked shape).",
     "C04": "remove / remove_subtree of every live node (probe on clones at probe states, plus in-history); oracle = model splice -> expected links of every survivor and exact set of slots whose removed flag flipped. Non-trivial: x has >= 1 child and >= 1 sibling, or x is a member of a top-level chain of >= 2; distinct by (op, position class, marked shape).",
@@ -25,7 +25,8 @@ ASSUME = [
     "ids passed to the library are current for their slot (live, or removed and not yet recycled); stale ids of recycled slots are only passed to NodeId::is_removed",
     "detach/remove/remove_subtree/payload access/iterators are only called on live nodes",
     "free-slot reuse order, capacity values, error precedence, panic messages and Debug output are not assumed",
-    "sizes bounded: <= 48 live nodes, <= 60 (quick) / 250 (thorough) calls per history",
+    "sizes bounded: step-by-step histories have <= 48 live nodes from single allocations and <= 60 / 200-250 calls; larger structures (up to ~90 000 nodes: index, depth and sibling-list ranges beyond 65 536) only arise from the Grow macro-operation's seven fixed shapes and its size ladder",
+    "a generation counter is brought to its end on a handful of slots per run only (Churn / ChurnTo classes 127, 255, 257, 32 767, 65 535, 70 000)",
 ]
 
 
@@ -139,7 +140,8 @@ def run_history_prop(ctx):
     runs = [("vdbg", "dbg", None), ("vrel", "rel", None)]
     if prop == "C16":
         # the round trip must hold whatever the payload looks like on the wire
-        runs = [("vdbg", "dbg", "struct"), ("vrel", "rel", "struct"), ("vrel", "rel", "int"), ("vrel", "rel", "opt"), ("vdbg", "dbg", "str"), ("vrel", "rel", "tuple")]
+        runs = [("vdbg", "dbg", "struct"), ("vrel", "rel", "struct"), ("vrel", "rel", "int"), ("vrel", "rel", "opt"), ("vdbg", "dbg", "str"), ("vrel", "rel", "tuple"),
+                ("vrel", "rel", "u128"), ("vrel", "rel", "map")]
     for prof, b, payload in runs:
         tag = b if payload is None else f"{b}-{payload}"
         part = os.path.join(ctx["TARGET"], "partials", f"{prop}-{tag}.json")
@@ -195,7 +197,14 @@ def run_history_prop(ctx):
             break
         if os.path.exists(dig) and payload is None:
             digests[b] = open(dig).read().splitlines()
-    if tier == "thorough" and not res["violations"] and prop not in ("C13", "C16", "C06"):
+    if tier == "thorough" and not res["violations"] and prop == "C14":
+        part, viols, note = fuzz_campaign(ctx, "pretty", prop, runs_per_proc=150000)
+        if part:
+            res["partials"].append(part)
+        res["violations"] += viols
+        if note:
+            res["output"] += note + "\n"
+    elif tier == "thorough" and not res["violations"] and prop not in ("C13", "C16", "C06"):
         part, viols, note = fuzz_campaign(ctx, "hist", prop, runs_per_proc=3000)
         if part:
             res["partials"].append(part)
@@ -461,6 +470,11 @@ def run_c18(ctx):
     if rc != 0:
         ctx["fail_infra"](prop, "harness core does not build", out)
     rc, out, dt = ctx["build"](["itv-c18-static"], "vrel", target_dir=td)
+    if rc == 0:
+        # the same assertions against indextree built without std (auto traits may differ per feature set)
+        rcn, outn, _ = ctx["build"](["itv-c18-static"], "vrel", features="", target_dir=os.path.join(ctx["TARGET"], "c18-nostd"))
+        if rcn != 0:
+            rc, out = rcn, "[indextree built with --no-default-features]\n" + outn
     if rc != 0:
         path = os.path.join(rdir, "send-sync-compile.log")
         open(path, "w").write(out)
@@ -592,7 +606,7 @@ def merge_coverage(prop, partials, spec):
 
 RULES["C14"] = "Generated documents: forest spec (each node attaches below the previous node, beside it, below a generated earlier node, or starts/extends a top-level chain; built with append_value / append / prepend) x four independent renderings per payload (1-4 lines, empty first/interior lines, guide look-alike text, tabs, multi-byte chars; last line non-empty) x a chunking plan for the payload's write_str calls. EVERY node is used as start node in all four format modes; oracle = independent reference renderer (exact comparison; trailing blanks ignored only on empty payload lines). An evaluation is one (document, start node, mode). Non-trivial: start node with siblings and children, or a multi-line payload at relative depth >= 2 below a last-sibling ancestor; distinct by printed text."
 
-RULES["C16"] = "Histories (removal-heavy, recycling, clear, rare generation-exhausting churn) with Roundtrip ops, run over five payload shapes on the wire (struct, bare integer, Option that may be null, string, tuple): the arena is serialised with serde_json and deserialised; the copy must be == the original, serialise to the same text, agree on is_removed for EVERY id ever issued, and then executes the rest of the history in lock-step with the original (same outcomes, Arena == after every call, and the copy is checked against the reference model as well). Non-trivial: the free list is non-empty at the round trip and a later call allocates; distinct by (forest shape, number of free / recycled / retired slots)."
+RULES["C16"] = "Histories (removal-heavy, recycling, clear, rare generation-exhausting churn) with Roundtrip ops, run over seven payload shapes on the wire (struct, bare integer, Option that may be null, string, tuple, u128, map with integer keys): the arena is serialised with serde_json and deserialised; the copy must be == the original, serialise to the same text, agree on is_removed for EVERY id ever issued, and then executes the rest of the history in lock-step with the original (same outcomes, Arena == after every call, and the copy is checked against the reference model as well). Non-trivial: the free list is non-empty at the round trip and a later call allocates; distinct by (forest shape, number of free / recycled / retired slots)."
 
 SPECS = {p: history_spec(p) for p in RULES}
 RULES["C17"] = "One seeded battery (E(3,3) exhaustively + generated histories over the whole core API: ids, links, errors with their Display text, nine traversals from every node, four pretty-printer modes, lookups, double-ended pulls) is executed by the same harness built against indextree with each feature set (quick: default, none = no_std+alloc, std, all four; thorough: all 16 subsets). Oracle: differential — per-history observation digests must be identical across builds; every build is also checked against the reference model; in par_iter builds the multiset of nodes visited by par_iter() must equal iter() at every sampled state. Non-trivial: a history with >= 1 error result and >= 1 recycled slot; distinct by (call class, forest shape)."
